@@ -59,7 +59,7 @@ _sp.loader.exec_module(_arr)
 UNITS += _arr.units("C03")
 TRUSTED = ["cbmc 6.11.0 / goto-instrument DFCC / CaDiCaL", "goto-cc C++ front end; List.hpp with compat rule R1"]
 ASSUMPTIONS = [
-    "List: step contracts + bounded whole-list units.  PoolList: step contracts for append() (default-constructed element; the argument-taking overloads are member templates goto-cc cannot instantiate), remove(iterator), remove(const T&), removeFront, removeBack, swap over a symbolic neighbourhood; clear / destruction not covered.  Array: bounded whole-array units in the THOROUGH tier only (fixed element count per unit <= 4 with the growth boundary 3 -> 7 inside; ~20 GB each, two at a time): append, reserve growth, copy, assignment incl. self, remove(index / iterator), clear, resize, find, swap, append(a[j]) / resize(n, a[j]); insert-like positional operations do not exist in Array",
+    "List: step contracts + bounded whole-list units.  PoolList: step contracts for append() (default-constructed element; the argument-taking overloads are member templates goto-cc cannot instantiate), remove(iterator), remove(const T&), removeFront, removeBack, swap over a symbolic neighbourhood; clear / destruction not covered.  Array: NOT covered (bounded whole-array units are parked: they exhaust memory on the repaired tree, see units/_array_units.py)",
     "step contracts (insert, remove, swap) hold for ANY list: the neighbourhood (position, predecessor, free item, sentinel) is symbolic, "
     "the rest of the list is unconstrained; sequence semantics follows from the relinking postconditions by induction over operations (paper)",
     "operations that walk the whole list: copy, clear, find, ==, !=, append(list), destruction are BOUNDED stand-ins (<= 3 elements) and not counted as proved; "
@@ -67,4 +67,4 @@ ASSUMPTIONS = [
     "List element construction / destruction counts (C04) are not checked: goto-cc does not run member destructors in explicit destructor calls; PoolList / Array counts are (element class named T)",
 ]
 EXPLANATION = ("List::insert / remove / swap are verified against relinking contracts with exact frames over symbolic neighbourhoods; "
-               "whole-list operations are checked on bounded lists against a reference sequence; PoolList step contracts; Array bounded units (thorough).")
+               "whole-list operations are checked on bounded lists against a reference sequence; PoolList step contracts.")
